@@ -23,6 +23,10 @@ pub enum Ctor {
     DepthsOrMax,
     Bounded,
     BoundedAtVariance,
+    /// `DepthMinMax { min, extent }` written as a struct literal (the fields are public) with an
+    /// extent so large that `min + extent` does not fit: the maximum saturates, i.e. there is none
+    #[serde(alias = "LiteralSaturated")]
+    LiteralSaturated,
 }
 
 #[derive(Serialize, Deserialize, Clone, Debug)]
@@ -90,6 +94,11 @@ fn make(ctor: Ctor, a: usize, b: usize, variance: Option<wax::query::DepthVarian
                     None
                 },
             }
+        },
+        Ctor::LiteralSaturated => {
+            let min = std::num::NonZeroUsize::new(a.max(1)).unwrap();
+            let d = DepthMinMax { min, extent: usize::MAX - b.min(a.max(1) - 1) };
+            Some((DepthBehavior::MinMax(d), Some(a.max(1)), None))
         },
         Ctor::BoundedAtVariance => {
             let v = match variance {
@@ -185,7 +194,7 @@ impl Property for C15 {
             };
             Some((shape, g))
         };
-        let ctor = t.pick(&[Ctor::Unbounded, Ctor::Max, Ctor::MinOrUnbounded, Ctor::DepthsOrMax, Ctor::Bounded, Ctor::BoundedAtVariance, Ctor::Max, Ctor::DepthsOrMax]);
+        let ctor = t.pick(&[Ctor::Unbounded, Ctor::Max, Ctor::MinOrUnbounded, Ctor::DepthsOrMax, Ctor::Bounded, Ctor::BoundedAtVariance, Ctor::Max, Ctor::DepthsOrMax, Ctor::LiteralSaturated]);
         Case { tree, base, glob, ctor, a: t.below(6), b: t.below(6), follow: t.chance(150), via: t.below(5) as u8 }
     }
     fn directed(&self) -> Vec<Case> {
